@@ -525,6 +525,7 @@ theorem inv_step {c : Conn α} (h : Inv c) (l : Label α) : Inv (step c l) := by
   | get hdr ver budget => exact inv_get h _ _ _
   | sclose req retry => exact inv_sclose h _ _
   | «end» => exact ⟨h.nodup, h.sid_lt, h.store_lt, h.att, h.att_inj, h.opn_att, h.ex_ok⟩
+  | evict sid n => exact ⟨h.nodup, h.sid_lt, h.store_lt, h.att, h.att_inj, h.opn_att, h.ex_ok⟩
 
 theorem inv_run (cfg : Cfg) (ls : List (Label α)) : Inv (run (init cfg) ls) := by
   suffices ∀ c : Conn α, Inv c → Inv (run c ls) from this _ (inv_init cfg)
